@@ -20,6 +20,7 @@ func init() {
 		Names: []string{"SET", "MSET", "GET", "MGET", "DEL", "INCR", "DECR", "INCRBY", "DECRBY", "INCRBYFLOAT", "APPEND",
 			"SETRANGE", "GETRANGE", "SUBSTR", "STRLEN", "RENAME", "GETDEL", "GETEX", "TYPE", "FLUSHDB"},
 		Ref: refString,
+		Deep: []Action{cmd("GET", "s"), cmd("SET", "s", "w"), cmd("SET", "s", "5", "EX", "100"), cmd("APPEND", "s", "1"), cmd("INCR", "s"), cmd("INCRBYFLOAT", "s", "0.5"), cmd("GETDEL", "s"), cmd("RENAME", "s", "n"), cmd("RENAME", "n", "s"), cmd("GETEX", "s", "PERSIST"), cmd("SETRANGE", "s", "2", "zz"), cmd("MSET", "s", "1", "n", "2"), cmd("DEL", "s", "n"), cmd("STRLEN", "s"), cmd("TYPE", "s")},
 		Title: "refString (a Go map key -> byte string + deadline: SET with NX/XX/GET/EX/PX/EXAT/PXAT, plain SET and MSET clear the deadline, " +
 			"int64 and float counters starting from 0 that keep the deadline, APPEND/SETRANGE with zero padding, GETRANGE/SUBSTR with negative indices clamped, " +
 			"RENAME moving value and deadline, GETDEL, GETEX setting/clearing the deadline, TYPE, DEL, FLUSHDB; wrong type or invalid arguments = error and no change)"}})
